@@ -86,7 +86,9 @@ class Bench:
 
     def sync(self):
         """turn what has happened to the tasks / the connection since the last look into model events"""
-        if self.start_task is not None and not self.start_task.done() and self.client._connection is not self.start_conn:
+        # (a connection that has been closed and is only being unwound by its task does not count: detaching it changes nothing)
+        if self.start_task is not None and not self.start_task.done() and self.client._connection is not self.start_conn \
+                and self.start_conn is not None and self.start_conn.connection_state is not ac.CONNECTION_STATE_CLOSED:
             self.bad.append(("attempt-detached", "a start_connection attempt is in progress but its connection is not "
                                                  "attached to the client any more (a new attempt would be accepted on top "
                                                  "of it; API calls see no connection)"))
@@ -150,17 +152,25 @@ class Bench:
             self.op_start(defer=True)
 
     def op_finish(self):
-        if self.finish_task is not None and not self.finish_task.done():
-            return
-        # finish_connection is only meaningful after a successful start (or to find out that the connection is gone);
-        # calling it in any other phase is API misuse (the state guard's RuntimeError detaches whatever is attached)
-        if self.phase() not in ("opened", "closedIdle", "none"):
-            return
+        # finish_connection is only meaningful after a successful start (or to find out that the connection is gone); in any
+        # other phase - the start or a finish still in progress, a session up - it is refused (the state guard's RuntimeError)
+        # and must leave the attempt / session it found alone
         c = self.client._connection
+        busy_before = c is not None and c.connection_state is not ac.CONNECTION_STATE_CLOSED and self.phase() != "opened"
         t = tasks._PyTask(self.client.finish_connection(login=False), loop=self.loop, name="cfinish", eager_start=True)
         if t.done() and not t.cancelled() and t.exception() is not None and not isinstance(t.exception(), core.APIConnectionError):
             self.last = "rawError"
             t.exception()
+            if busy_before and self.client._connection is not c:
+                self.bad.append(("detached-by-refused-finish", f"finish_connection() called while the client's connection is in state "
+                                 f"{STATE[c.connection_state]} (an attempt in progress / a live session) was refused - and detached that "
+                                 "connection from the client: it goes on unsupervised, a new attempt is accepted on top of it"))
+                self.client._connection = c    # (let the scenario go on from the state the model describes)
+        elif busy_before:
+            self.bad.append(("finish-accepted-on-top", f"finish_connection() was accepted although the client's connection is in state "
+                                                       f"{STATE[c.connection_state]}"))
+            self._keep = getattr(self, "_keep", []) + [t]
+            self.last = "ok"
         else:
             self.last = "ok"
             self.finish_task = t
